@@ -5,7 +5,6 @@ HSM-BUF.O1/O2/O3   : in dispatch with trans_ analysed inline, every store, grow-
                      index the code believes (zone-domain abstract interpretation; the invariant is mark == len(buffer)-1).
 HSM-BUF.O5         : each entry loop enters slots j, j-1, ..., 0: one ENTRY call and one `j -= 1` per iteration, ending exactly after
                      slot 0 (outermost first, each state once, the target last).
-HSM-LCA.match      : where trans_ finds the common ancestor in slot q of the target's ancestor path, entry starts at slot q-1.
 HSM-SIGSET         : trans_ sends only SUPER/EXIT (entries are made by dispatch from the buffer); dispatch sends no REFLECTION.
 HSM-CURSOR.I1      : dispatch leaves temp.fun == state.fun.
 HSM-CONTENT.O4/O5  : slot k holds the k-th ancestor of the target whenever it is used for entry (ghost frontier / depths).
@@ -31,14 +30,13 @@ from sa import hsmrules
 def check(run, model, tier):
     run.explanation = ('Abstract interpretation of HsmEventProcessor.dispatch with trans_ inlined, in the zone (difference-bound) domain over the '
                        'integer locals and the ghost len(path buffer), partitioned by the valuation of the status-flag local; plus CFG rules on the '
-                       'entry loops, the LCA match assignments, the signal each of the 19 handler-call sites sends and the cursor typestate. '
+                       'entry loops, the signal each of the 19 handler-call sites sends and the cursor typestate. '
                        'The invariants hold for every depth of nesting and of initial transition (loops are solved by widening, not unrolled); '
                        'handlers are modelled by the protocol H1-H4.')
     run.rule('HSM-BUF.O1-store', 'every buf[i] = v has 0 <= i <= len(buf)-1')
     run.rule('HSM-BUF.O2-append', 'every grow-append standing for "populate slot i" has i == len(buf)')
     run.rule('HSM-BUF.O3-load', 'every load buf[j] has 0 <= j <= len(buf)-1')
     run.rule('HSM-BUF.O5-entry-loop', 'entry loops: one ENTRY call and one -1 step per iteration, exit exactly after slot 0')
-    run.rule('HSM-LCA.match', 'on a match in slot q the entry index becomes q-1 and the scan ends')
     run.rule('HSM-SIGSET', 'signals each processor method may send')
     run.rule('HSM-CURSOR.I1', 'temp.fun == state.fun at every normal exit')
     ba, res = hsmrules.record_buffer_obligations(run, model, 'dispatch')
@@ -62,7 +60,7 @@ def check(run, model, tier):
     run.floor('raise statements in dispatch+trans_ proved unreachable for protocol-following charts', cc['O7-noraise'], 5)
     n = hsmrules.entry_loops(run, model, 'dispatch')
     run.floor('entry loops in dispatch', n, 2)
-    hsmrules.lca_match_rule(run, model)
+    # (the shape rule HSM-LCA.match was retired with HSM-CURSOR.parent-read: O6-lca decides 'entry starts just below the tested common state' for every way of writing the scan)
     run.rule('HSM-TRANS', 'chart.trans(x) stores x in the cursor, answers TRAN, writes nothing else (the processor side of H3)')
     hsmrules.trans_api_rule(run, model)
     n = hsmrules.signal_sets(run, model, ['dispatch', 'trans_'])
